@@ -5,6 +5,7 @@ import (
 	"go/ast"
 	"go/token"
 	"go/types"
+	"sort"
 	"strings"
 )
 
@@ -122,6 +123,19 @@ func (fr *Frame) collectMods(nodes []ast.Node, declaredInside map[*types.Var]boo
 						markLhs(s.X)
 					}
 				}
+			case *ast.CompositeLit:
+				if t := fr.typeOf(s); t != nil {
+					if stt, ok := t.Underlying().(*types.Struct); ok && x.u.sortOf(t) != "Time" {
+						for i := 0; i < stt.NumFields(); i++ {
+							ms.heapKeys[x.u.heapKeyForField(stt.Field(i), t)] = true
+						}
+					}
+					if mt, ok := t.Underlying().(*types.Map); ok {
+						dom, val, _, _ := x.u.mapKeys(mt)
+						ms.heapKeys[dom] = true
+						ms.heapKeys[val] = true
+					}
+				}
 			case *ast.CallExpr:
 				fr.callMods(s, ms, markLhs)
 			case *ast.FuncLit:
@@ -151,6 +165,32 @@ func (fr *Frame) callMods(c *ast.CallExpr, ms *modSet, markLhs func(ast.Expr)) {
 			case "copy":
 				if se, ok := c.Args[0].(*ast.SliceExpr); ok {
 					markLhs(se.X)
+				}
+			case "make":
+				if mt, ok := fr.typeOf(c.Args[0]).Underlying().(*types.Map); ok {
+					dom, val, _, _ := x.u.mapKeys(mt)
+					ms.heapKeys[dom] = true
+					ms.heapKeys[val] = true
+				}
+				if _, ok := fr.typeOf(c.Args[0]).Underlying().(*types.Chan); ok {
+					x.u.regHeap("chan.nsent", "(Array Int Int)")
+					ms.heapKeys["chan.nsent"] = true
+				}
+			case "new":
+				t := fr.typeOf(c.Args[0])
+				if stt, ok := t.Underlying().(*types.Struct); ok && x.eng.inRepo(t) {
+					for i := 0; i < stt.NumFields(); i++ {
+						ms.heapKeys[x.u.heapKeyForField(stt.Field(i), t)] = true
+					}
+				} else if n, ok := t.(*types.Named); ok && n.Obj().Pkg() != nil && n.Obj().Pkg().Path() == "bytes" && n.Obj().Name() == "Buffer" {
+					ms.heapKeys[x.bufKey()] = true
+				} else if n, ok := t.(*types.Named); ok && n.Obj().Pkg() != nil && n.Obj().Pkg().Path() == "math/big" {
+					x.u.regHeap("big.Int.v", "(Array Int Int)")
+					ms.heapKeys["big.Int.v"] = true
+				} else {
+					k := "Cell_" + sortId(x.u.sortOf(t))
+					x.u.regHeap(k, "(Array Int "+x.u.sortOf(t)+")")
+					ms.heapKeys[k] = true
 				}
 			}
 			return
@@ -227,6 +267,37 @@ func (fr *Frame) havocMods(st *State, ms *modSet) {
 	st.next = nn
 }
 
+// loopFrame maintains, as an implicit loop invariant, the frame the function has to
+// establish at exit anyway: heap locations of objects that existed at function entry are
+// unchanged for every heap key the contract does not list as freely modifiable.
+func (fr *Frame) loopFrame(st *State, ms *modSet, key, phase string, n ast.Node) {
+	if fr.contract == nil || fr.modsInfo == nil || fr.modsInfo["*"] == "all" {
+		return
+	}
+	x := fr.x
+	var keys []string
+	if ms.heapAll {
+		keys = append(keys, x.u.heapOrder...)
+	} else {
+		for k := range ms.heapKeys {
+			keys = append(keys, k)
+		}
+	}
+	sort.Strings(keys)
+	for _, k := range keys {
+		if fr.modsInfo[k] == "all" {
+			continue
+		}
+		q := "r$q" + fmt.Sprint(x.nextQ())
+		f := fmt.Sprintf("(forall ((%s Int)) (! (=> (and (<= 0 %s) (< %s %s)) (= (select %s %s) (select %s %s))) :pattern ((select %s %s))))", q, q, q, x.next0, x.getHeap(st, k), q, x.heapInit(k), q, x.getHeap(st, k), q)
+		if phase == "assume" {
+			x.u.gfact(st.pc, f)
+		} else {
+			x.u.oblige("loop["+key+"]:frame:"+k+":"+phase, "frame", "objects existing at entry are not modified in "+k, fr.pos(n.Pos()), st.pc, f)
+		}
+	}
+}
+
 func (fr *Frame) loopEnv(st *State, i string) *SpecEnv {
 	env := fr.specEnv(st)
 	env.loopI = i
@@ -294,7 +365,9 @@ func (fr *Frame) forStmt(st *State, n *ast.ForStmt, label string) flow {
 	if ls != nil && ls.HavocAll {
 		ms.heapAll = true
 	}
+	fr.loopFrame(st, ms, key, "entry", n)
 	fr.havocMods(head, ms)
+	fr.loopFrame(head, ms, key, "assume", n)
 	ih := x.u.fresh("$i", "Int")
 	x.u.gfact(head.pc, "(>= "+ih+" 0)")
 	fr.loops[len(fr.loops)-1].i = ih
@@ -343,6 +416,7 @@ func (fr *Frame) forStmt(st *State, n *ast.ForStmt, label string) flow {
 		if back != nil {
 			i2 := x.bind(Val{T: "(+ " + ih + " 1)", S: "Int"}, "$i").T
 			fr.loopInvariants(back, ls, key, i2, "preserved", n)
+			fr.loopFrame(back, ms, key, "preserved", n)
 			if variant0 != "" {
 				env := fr.loopEnv(back, i2)
 				v := env.Eval(ls.Decreases.Expr)
@@ -414,7 +488,9 @@ func (fr *Frame) rangeStmt(st *State, n *ast.RangeStmt, label string) flow {
 	}
 	delete(ms.vars, keyObj)
 	delete(ms.vars, valObj)
+	fr.loopFrame(st, ms, key, "entry", n)
 	fr.havocMods(head, ms)
+	fr.loopFrame(head, ms, key, "assume", n)
 	ih := x.u.fresh("$i", "Int")
 	fr.loops[len(fr.loops)-1].i = ih
 	var visitedH string
@@ -488,6 +564,7 @@ func (fr *Frame) rangeStmt(st *State, n *ast.RangeStmt, label string) flow {
 	if back != nil {
 		i2 := x.bind(Val{T: "(+ " + ih + " 1)", S: "Int"}, "$i").T
 		fr.loopInvariants(back, ls, key, i2, "preserved", n)
+		fr.loopFrame(back, ms, key, "preserved", n)
 	}
 	out.next = x.merge(exits)
 	if out.next != nil {
@@ -567,10 +644,23 @@ func (fr *Frame) useLemma(st *State, use *SCall, at ast.Node) {
 		names[p.Name] = env.Eval(use.Args[i])
 	}
 	sub.names = names
+	x.u.gfact(st.pc, lemmaInstance(sub, lem))
+	x.usedContracts[lem.Pkg+"::lemma:"+lem.Name] = lem
+}
+
+// lemmaInstance is the implication requires ==> ensures of a lemma, instantiated in env.
+// The lemma itself is proved as its own unit (it is in the cone of every unit using it).
+func lemmaInstance(env *SpecEnv, lem *Contract) string {
+	var rs, es []string
 	for _, r := range lem.Requires {
-		x.u.oblige("use:"+use.Fun+":requires:"+r.Label, "requires", r.Src, fr.pos(at.Pos()), st.pc, sub.Bool(r.Expr))
+		rs = append(rs, env.Bool(r.Expr))
 	}
 	for _, e := range lem.Ensures {
-		x.u.gfact(st.pc, sub.Bool(e.Expr))
+		es = append(es, env.Bool(e.Expr))
 	}
+	h := "true"
+	if len(rs) > 0 {
+		h = "(and " + strings.Join(rs, " ") + " true)"
+	}
+	return "(=> " + h + " (and " + strings.Join(es, " ") + " true))"
 }
